@@ -32,6 +32,11 @@ mod put_validation;
 mod python;
 mod quote;
 mod replication;
+#[cfg(feature = "verif-hooks")]
+pub mod verif_hooks {
+    //! Verification hooks, see `node::verif_node`.
+    pub use crate::node::verif_node::VerifNode;
+}
 
 pub use self::{
     event::{NodeEvent, NodeEventsChannel, NodeEventsReceiver},
